@@ -96,9 +96,11 @@ CLAIMED["C02"] = dict(
          "state the fault-free continuation (peer acknowledges the last TSN sent, pending transmit task runs) "
          "reaches quiescence - sent and outbound queue empty, flight size 0 - within 2*(outstanding+queued) inputs, "
          "by a TSN-order invariant (queue TSNs are the consecutive run after max(last SACKed, advanced ack point)) "
-         "and a decreasing measure (5 theorems). PARTIAL: that the REAL peer and a fault-free network produce such "
-         "a continuation within bounded time is observed on the two-endpoint simulator (fault prefix + fault-free "
-         "suffix), not proved; real time (RTO) is outside every theorem.",
+         "and a decreasing measure; the acknowledgement of that continuation is the one the receiver model sends "
+         "when the outstanding chunks arrive in order (6 theorems). PARTIAL: the full closed loop of two endpoints "
+         "within bounded time (SACK delay, timers, reordering in the suffix, both directions) is observed on the "
+         "two-endpoint simulator (fault prefix + fault-free suffix), not proved; real time (RTO) is outside every "
+         "theorem.",
     design_ref="5 / C02",
     note="Sender model tied to a real RTCSctpTransport (ESTABLISHED; _send_chunk, timers, ensure_future recorded) by "
          "differential runs comparing outputs and the full sender state after every input; lost DATA needs no input "
